@@ -93,6 +93,33 @@ SINKS = {
 }
 
 
+# a callback that changes the container being walked (hz-v is a vector of six numbers)
+MUTATIONS = {
+    "shrink": "(elpspath:?del! hz-v 0)",
+    "shrink-many": "(progn (elpspath:?del! hz-v 0) (elpspath:?del! hz-v 0) (elpspath:?del! hz-v 0))",
+    "grow": "(append! hz-v 7 7 7 7 7 7 7 7 7)",
+    "empty": "(elpspath:?del! hz-v '(range 0 (length hz-v)))",
+    "overwrite": "(elpspath:?set! hz-v 0 \"s\")",
+    "grow-then-shrink": "(progn (append! hz-v 1 2 3) (elpspath:?del! hz-v 0) (elpspath:?del! hz-v 0) (elpspath:?del! hz-v 0) (elpspath:?del! hz-v 0))",
+}
+TRAVERSERS = {
+    "map": "(map 'vector (lambda (e) (ignore-errors %s) e) hz-v)",
+    "foldl": "(foldl (lambda (acc e) (ignore-errors %s) (+ acc 1)) 0 hz-v)",
+    "foldr": "(foldr (lambda (e acc) (ignore-errors %s) (+ acc 1)) 0 hz-v)",
+    "select": "(select 'vector (lambda (e) (ignore-errors %s) true) hz-v)",
+    "reject": "(reject 'list (lambda (e) (ignore-errors %s) false) hz-v)",
+    "any": "(any? (lambda (e) (ignore-errors %s) false) hz-v)",
+    "all": "(all? (lambda (e) (ignore-errors %s) true) hz-v)",
+    "stable-sort": "(stable-sort (lambda (a b) (ignore-errors %s) (< a b)) hz-v)",
+    "stable-sort-key": "(stable-sort < hz-v (lambda (e) (ignore-errors %s) e))",
+    "insert-sorted": "(insert-sorted 'vector hz-v (lambda (a b) (ignore-errors %s) (< a b)) 10)",
+    "insert-sorted-key": "(insert-sorted 'list hz-v < 4 (lambda (e) (ignore-errors %s) e))",
+    "zip-map": "(map 'list (lambda (p) (ignore-errors %s) p) (zip 'vector hz-v hz-v))",
+    "dotimes-aref": "(dotimes (i (length hz-v)) (ignore-errors %s) (aref hz-v i))",
+    "path-loop": "(map 'list (lambda (i) (ignore-errors %s) (elpspath:? hz-v i)) (list 0 1 2 3 4 5))",
+}
+
+
 def place(entry, call):
     """the hostile call at an entry point"""
     return {
@@ -111,6 +138,8 @@ def place(entry, call):
 
 
 def render(r):
+    if r["kind"] == "mutcb":
+        return "(set 'hz-v (vector 5 3 8 1 9 2))\n" + place(r["entry"], "(list " + (TRAVERSERS[r["what"]] % MUTATIONS[r["shape"]]) + " (length (format-string \"{}\" hz-v)))")
     if r["kind"] == "vehicle":
         return DEFS[r["what"]] + "\n" + place(r["entry"], "(hz-f 1)")
     return SHAPES[r["shape"]] + "\n" + place(r["entry"], SINKS[r["what"]])
